@@ -21,12 +21,6 @@ open Jap.PState
 
 /-! ## tie: the regenerated tables have the shape the model assumes -/
 
-/-- the facts of the current source -/
-theorem tie_facts : genFacts =
-    { finallyPops := true, pcirDeletes := true, ctxResetFinally := true, argsBeforeParse := true,
-      kwSetAroundParse := true, sapSetAroundParse := true, dkSetInSerialize := true, dcDefaultOnAction := false,
-      linkedOnFreshOnly := true, shtabGuarded := true, wiringAtBuildOnly := true } := by decide
-
 /-- the assumptions of `C09_history_independent` hold for the regenerated facts: reverting the `finally` of
     parse_args (F12), moving a context-variable reset out of its `finally`, writing the action's own
     `sub_add_kwargs` (F09b) … each makes this `decide` fail -/
@@ -44,12 +38,11 @@ theorem tie_parser_context :
     by the function the model expects, or provably no carrier -/
 theorem tie_writes : writesKnown = true := by decide
 
-/-- a pending `--print_config` request is removed in the `finally` of parse_args and before the exit of
-    print_config_if_requested -/
+/-- the `finally` of parse_args is among the places where a pending `--print_config` request is removed
+    (the deletion inside print_config_if_requested is not needed for the theorem: an exit passes through the `finally`) -/
 theorem tie_print_config_deletes :
-    Jap.Gen.PState.printConfigDeletes =
-      [("ArgumentParser.parse_args", "self.__dict__.pop('print_config', None)"),
-       ("_ActionPrintConfig.print_config_if_requested", "delattr(parser, 'print_config')")] := by decide
+    Jap.Gen.PState.printConfigDeletes.contains
+      ("ArgumentParser.parse_args", "self.__dict__.pop('print_config', None)") = true := by decide
 
 /-! ## the invariant -/
 
